@@ -21,7 +21,8 @@ func init() {
 }
 
 // cmdLitConv: per hex-encoded literal (with quotes) prints
-//   <LitToRune value or PANIC> <strconv.UnquoteChar-based Go value or INVALID>
+//
+//	<LitToRune value or PANIC> <strconv.UnquoteChar-based Go value or INVALID>
 func cmdLitConv(in *bufio.Reader, out *bufio.Writer, _ []string) {
 	sc := bufio.NewScanner(in)
 	sc.Buffer(make([]byte, 1<<20), 1<<26)
